@@ -592,7 +592,9 @@ class PreludeMixin:
             return [(st, self.fold_apply(st, q[5:], args[0], list(args[1:])))]
         if q.startswith('ufunc.'):
             f, ks, rk = self.reg.ufuncs[q[6:]]
-            zs = [self.coerce_to(st, a, k).z for a, k in zip(args, ks)]
+            zs = []
+            for a, k in zip(args, ks):
+                zs += list(self.coerce_to(st, a, k).t)
             return [(st, SVal(rk, [f(*zs)]))]
         name = q.split('.', 1)[1] if q.startswith('builtins.') else q
         if name.startswith('numpy.'):
